@@ -557,6 +557,8 @@ def precreate_label_harness(ctx):
         label = type("L", (), {"name": name, "is_temporary": temporary})()
         pstate = type("P", (), {"loc": None})()
         want_err = taken != "free"
+        locals0 = dict(st.local_symbols)
+        modsyms0 = set(m.symbols)
         try:
             s = creator._precreate_label(pstate, label)
             ok = (not want_err) and s.name == final and st.local_symbols.get(name) is s
@@ -565,6 +567,10 @@ def precreate_label_harness(ctx):
         except MultipleDefinitionsError:
             ctx.prove("precreate_label/MultipleDefinitionsError-exactly-when-the-name-is-taken", z3.BoolVal(want_err),
                       note="temporary=%s suffix=%s taken=%s" % (temporary, suffix, taken))
+            # a refused definition leaves no trace: a caller that survives the error keeps resolving the name as before
+            same = dict(st.local_symbols) == locals0 and all(st.local_symbols[k] is v for k, v in locals0.items()) and set(m.symbols) == modsyms0
+            ctx.prove("precreate_label/a-refused-definition-changes-nothing", z3.BoolVal(bool(same)),
+                      note="temporary=%s suffix=%s taken=%s: local symbols now %s" % (temporary, suffix, taken, sorted(st.local_symbols)))
     ctx.cover("enumerated")
 
 
@@ -786,6 +792,7 @@ def c13_bounded(tier, seed):
 
 
 def jobs_c12(tier="quick", seed=0):
+    yield Job("C12/precreate_label", precreate_label_harness, kind="E", func="gtirb_rewriting.assembler.assembler:_SymbolCreator._precreate_label", expect_cover=("enumerated",))
     yield Job("C12/symbol_lookup", symbol_lookup_harness, kind="E", func="gtirb_rewriting.assembler.assembler:_Streamer._symbol_lookup/_resolve_symbol", expect_cover=("enumerated",))
     yield Job("C12/assembler-reuse-bounded", assembler_reuse(tier, seed), kind="B", func="gtirb_rewriting.assembler.assembler:Assembler.finalize")
     yield Job("C12/operand-forms-bounded", operand_forms(tier, seed), kind="B", func="gtirb_rewriting.assembler.assembler:_Streamer._fixup_to_symbolic_operand/_mcexpr_to_symbolic_operand")
